@@ -32,6 +32,8 @@ type Frame struct {
 	boxed    []boxedLocal // escaping local variables (heap cells) of this activation
 	goWritten map[*ssa.Alloc]bool // locals assigned by goroutines this activation spawned
 	goUnknown bool                // a goroutine was spawned whose body is not known
+	goAll     bool                // a spawned goroutine may write any heap
+	goHeaps   map[string]bool     // heaps the spawned goroutines may write (when !goAll)
 }
 
 type retInfo struct {
@@ -482,7 +484,10 @@ func (u *Unit) enterLoop(fr *Frame, li *loopInfo, st *State, reach Term) (*State
 	// 1. invariants hold on entry
 	if li.spec != nil {
 		for i, inv := range li.spec.Invariants {
-			f := u.evalClause(inv.Expr, u.loopEnv(fr, st))
+			f, ok := u.evalLoopClause(inv.Expr, u.loopEnv(fr, st))
+			if !ok {
+				continue
+			}
 			u.curWhere = u.W.Fset.Position(li.pos).String()
 			u.oblige("inv", reach, f, fmt.Sprintf("loop%d.inv[%d].init", li.ordinal, i), "", inv.Src)
 		}
@@ -506,11 +511,14 @@ func (u *Unit) enterLoop(fr *Frame, li *loopInfo, st *State, reach Term) (*State
 	// 4. assume user invariants
 	if li.spec != nil {
 		for _, inv := range li.spec.Invariants {
-			f := u.evalClause(inv.Expr, u.loopEnv(fr, st))
-			u.assume(reach, f)
+			if f, ok := u.evalLoopClause(inv.Expr, u.loopEnv(fr, st)); ok {
+				u.assume(reach, f)
+			}
 		}
 		if li.spec.Decreases != nil {
-			li.measure0 = u.def(u.evalInt(li.spec.Decreases.Expr, u.loopEnv(fr, st)))
+			if m, ok := u.evalLoopMeasure(li.spec.Decreases.Expr, u.loopEnv(fr, st)); ok {
+				li.measure0 = u.def(m)
+			}
 		}
 	}
 	li.hdrState = st.clone()
@@ -527,12 +535,18 @@ func (u *Unit) backEdge(fr *Frame, li *loopInfo, st *State, cond Term) {
 	}
 	u.scopeBlk = li.header
 	for i, inv := range li.spec.Invariants {
-		f := u.evalClause(inv.Expr, u.loopEnv(fr, st))
+		f, ok := u.evalLoopClause(inv.Expr, u.loopEnv(fr, st))
+		if !ok {
+			continue
+		}
 		u.curWhere = u.W.Fset.Position(li.pos).String()
 		u.oblige("inv", cond, f, fmt.Sprintf("loop%d.inv[%d].preserve", li.ordinal, i), "", inv.Src)
 	}
-	if li.spec.Decreases != nil {
-		m1 := u.evalInt(li.spec.Decreases.Expr, u.loopEnv(fr, st))
+	if li.spec.Decreases != nil && li.measure0.S != "" {
+		m1, ok := u.evalLoopMeasure(li.spec.Decreases.Expr, u.loopEnv(fr, st))
+		if !ok {
+			return
+		}
 		f := and(app("Bool", "<", m1, li.measure0), app("Bool", ">=", li.measure0, intLit(0)))
 		u.oblige("dec", cond, f, fmt.Sprintf("loop%d.decreases", li.ordinal), "", li.spec.Decreases.Src)
 	}
